@@ -31,9 +31,13 @@ func (c *DnsController) backgroundRefresh(cacheKey string, dnsMessage *dnsmessag
 
 	// Ensure refreshing flag is cleared even if refresh fails
 	// This prevents permanent deadlock if background refresh fails
+	// Only the flag is touched here: LookupDnsRespCache would evict the (expired)
+	// stale entry when the refresh failed, ending the stale window at the first
+	// upstream failure. Entries beyond the window are still evicted by the lookup
+	// path and the janitor.
 	defer func() {
-		if cache := c.LookupDnsRespCache(cacheKey, false); cache != nil {
-			if cache.IsRefreshing() {
+		if val, ok := c.dnsCache.Load(cacheKey); ok {
+			if cache, ok := val.(*DnsCache); ok && cache.IsRefreshing() {
 				cache.MarkRefreshed()
 			}
 		}
